@@ -199,6 +199,46 @@ def reentrant_order(ctx):
             return
 
 
+def pipelining_sender(ctx):
+    """A client that sends BEGIN, its Hello and its first messages in ONE write (as pipelining clients do), the message
+    bytes containing CR LF - a line break in a string, a serial of 0x0a0d: the addressee gets them all, unchanged and in
+    order, and what the sender transmits later as well."""
+    case = {'kind': 'pipelining-sender'}
+    for variant in range(4):
+        net = busnet.Net()
+        dest = net.raw_client()
+        little = variant % 2 == 0
+        hello = RM.build(RM.METHOD_CALL, 1, {'path': '/org/freedesktop/DBus', 'member': 'Hello', 'interface': BUS,
+                                             'destination': BUS}, '', [], little)
+        texts = ['first line\r\nsecond line', 'plain', '\r\n', 'tail\r\n'][variant:] + ['x']
+        serials = [0x0a0d, 5, 0x0d0a0d0a, 7, 9]
+        msgs = [RM.build(RM.SIGNAL if i % 2 else RM.METHOD_CALL, serials[i], {'path': '/a', 'member': 'M%d' % i,
+                                                                             'interface': 'a.b', 'destination': dest.unique},
+                         's', [t], little) for i, t in enumerate(texts)]
+        split = max(1, len(msgs) - 1)
+        sender = net.raw_client(pipelined=hello + b''.join(msgs[:split]))
+        for raw in msgs[split:]:
+            sender.send_raw(raw)
+        ctx.count('evaluations')
+        ctx.count('pipelining_senders')
+        got = [m for m in dest.take() if m.fields.get('member', '').startswith('M')]
+        w = {'variant': variant, 'sent': [(serials[i], texts[i]) for i in range(len(msgs))],
+             'delivered': [(m.serial, m.body) for m in got], 'sender_unique': sender.unique}
+        if net.crashes():
+            ctx.report('crash', 'bus-side connection crashed with %r on a pipelining client' % (net.crashes()[0][1],), w, case)
+            return
+        if [(m.serial, m.body) for m in got] != [(serials[i], [texts[i]]) for i in range(len(msgs))] or not sender.unique:
+            ctx.report('pipelined-messages-damaged', 'a client that pipelined BEGIN, Hello and %d messages (message bytes '
+                       'containing CR LF): delivered %r, sent %r' % (split, w['delivered'], w['sent']), w, case)
+            return
+        for raw, m in zip(msgs, got):
+            diffs = compare_forwarded(raw, m, sender.unique)
+            if diffs:
+                w['diffs'] = diffs
+                ctx.report(classify_diffs(diffs), 'a pipelined message was forwarded changed: %s' % (diffs[:3],), w, case)
+                return
+
+
 def run_history(ctx, seed, idx):
     r = random.Random('%s/c14/%s' % (seed, idx))
     case = {'kind': 'hist', 'idx': idx}
@@ -521,6 +561,7 @@ def run(ctx):
                 'original. distinct_nontrivial = distinct (op, type, forged, flags, body signature, deliverable, fan-out)')
     if si == 0:
         reentrant_order(ctx)
+        pipelining_sender(ctx)
     n = (2500 if quick else 60000) // sn
     ctx.budget(50 if quick else 540)
     for i in range(n):
